@@ -1,4 +1,5 @@
 import Model
+import Proofs.ReadFull
 import Spec
 import Gen
 import Proofs.Stream
@@ -62,6 +63,27 @@ theorem C05_by_length (d : DictFn) (bs : Bytes) (fin : Fin) (h : Header) (r : Na
     have h1 : ¬ h.len < 20 := by omega
     have h2 : ¬ bs.length < h.len := by omega
     simp [splitStep, hne, hlt, hh, hc, h1, h2]
+
+/-- (reads that return bytes and an error together) `io.ReadFull`, which `readHeader` and
+    `readBodyBytes` use (`C05_fill_gen`), adds what a Read returned before it looks at the error:
+    whenever the bytes the transport delivers - up to and including the call that reports the end
+    or an error - are at least what was asked for, the buffer is filled with exactly the first
+    `want` of them. However the Reads are cut; whether or not the last bytes come with the end. -/
+theorem C05_all_bytes_arrive (rs : List ReadRes) (want : Nat) (h : want ≤ (avail rs).length) :
+    (readFullStd false want rs []).1 = .ok ((avail rs).take want) := by
+  have := readFullStd_ok rs want [] h
+  simpa using this
+
+/-- a loop that returns on the error before looking at what it got loses a complete message whose
+    last bytes arrive together with the end of the stream -/
+theorem C05_error_first_counterexample :
+    (readFullStd true 4 [([1, 2], none), ([3, 4], some .eof)] []).1 = .unexpected [1, 2, 3, 4] ∧
+    (readFullStd false 4 [([1, 2], none), ([3, 4], some .eof)] []).1 = .ok [1, 2, 3, 4] := by
+  constructor <;> simp [readFullStd]
+
+theorem C05_fill_gen : Gen.directReadCalls = [] ∧
+    Gen.readerFillCalls = ["Message.readHeader:msr.ReadAtLeast", "Message.readHeader:io.ReadFull",
+      "readBodyBytes:msr.ReadAtLeast", "readBodyBytes:io.ReadFull"] := by decide
 
 /-- regenerated constant -/
 theorem C05_gen : Gen.HeaderLength = 20 ∧ Gen.MessageBufferLength = 1024 ∧
